@@ -258,6 +258,15 @@ def _shard_c(args):
                         viol.add(f"C01/same-opcode-follower-changes-first/{_cls(pre)}/{'+'.join(which)}",
                                  f"{first.hex()} alone -> {str(fullbase)[:160]}; followed by {fol.hex()} -> {str(r2)[:160]}",
                                  lambda: {"part": "C", "first": first.hex(), "follower": fol.hex(), "full": True, "shard": sh()})
+        # operand bytes at their extreme values (00 / 80 / FF), one position at a time: all consumers must still agree
+        for pos in range(k + 1, len(first)):
+            for v in (0x00, 0x80, 0xFF):
+                dd = bytearray(first)
+                dd[pos] = v
+                dd = bytes(dd) + drv.TAILS["mix"]
+                for sg, what in judge_shape(dd[:7], ADDR, True, pre, op):
+                    ev += 1
+                    viol.add(sg + "/operand-extreme", what, lambda dd=dd: {"part": "A", "bytes": dd[:7].hex(), "addr": ADDR, "pre": pre, "op": op})
     return {"ev": ev, "viol": viol}
 
 
